@@ -300,6 +300,40 @@ func rulesC02(c *Ctx) {
 			}
 			c.Check(delDom, "processResult:unindex-before-write", pr, g.Node(wv), "delete(incomingByID, req.ID) dominates the write (the peer may reuse the id as soon as it sees the response)")
 		}
+		// and Connection.write really hands the message to the transport: the Writer.Write call is conditional only on the
+		// shutting-down verdict being nil, its argument is the message, and its error is what write goes on with
+		wf := c.Fn(pJ, "Connection", "write")
+		wg := wf.Graph()
+		wW := c.P.StdFunc(modPath+"/"+pJ, "Writer", "Write")
+		c.Need(wW != nil, "jsonrpc2.Writer.Write")
+		wcalls := wf.CallsIn(wf.Body, wW, false)
+		okW := len(wcalls) == 1
+		if okW {
+			call := wcalls[0]
+			wv := wg.VertexOf(call)
+			var errV types.Object
+			if as, ok := wf.ParentOf(call).(*ast.AssignStmt); ok && len(as.Lhs) == 1 {
+				errV = wf.ObjOf(as.Lhs[0])
+			}
+			msgP := wf.NonRecvParams()[len(wf.NonRecvParams())-1]
+			guards := wg.GuardsAt(wv)
+			onlyNilErr := errV != nil
+			for _, a := range guards {
+				if !AtomSaysNil(a, true, func(e ast.Expr) bool { return wf.ObjOf(e) == errV }) {
+					onlyNilErr = false
+				}
+			}
+			okW = onlyNilErr && len(guards) >= 1 && len(call.Args) == 2 && wf.ObjOf(call.Args[1]) == types.Object(msgP)
+			// the verdict variable is what the locked closure assigns from shuttingDown, and what write returns
+			okRet := false
+			for _, r := range wf.Returns() {
+				if len(r.Results) == 1 && wf.ObjOf(r.Results[0]) == errV {
+					okRet = true
+				}
+			}
+			okW = okW && okRet
+		}
+		c.Check(okW, "write:hands-message-to-transport", wf, nil, "Connection.write calls writer.Write(ctx, msg) exactly when the shutting-down verdict is nil, and returns that call's error")
 	})
 
 	c.Rule("R-C02-3", "a request whose id is already in flight is refused without overwriting the original's index entry", func() {
@@ -328,6 +362,58 @@ func rulesC02(c *Ctx) {
 			}
 		}
 		c.Pin("incomingByID insertions", n, 1)
+		// the refusal itself: on the branch where the id is already indexed, the closure leaves only after setting an error
+		// that wraps ErrInvalidRequest and after clearing the request's id (so the error response is not attributed to,
+		// and does not retire, the original request); outside the closure a non-nil error goes to processResult
+		eIR := c.Obj(pJ, "ErrInvalidRequest")
+		idF := c.Field(pJ, "Request", "ID")
+		m := 0
+		for _, s := range c.uifSites(ar) {
+			l := s.Lit
+			lg := l.Graph()
+			for _, dup := range lg.edgesWhere(func(a Atom) bool {
+				return AtomSaysNil(a, false, func(e ast.Expr) bool {
+					mm, _, isIx := indexOf(e)
+					return isIx && l.IsField(mm, byID)
+				})
+			}) {
+				m++
+				setsErr := func(v int) bool {
+					for _, w := range Writes(lg.Node(v), false) {
+						if w.RHS != nil && l.WrapsObj(w.RHS, eIR) {
+							if o, ok := l.ObjOf(w.LHS).(*types.Var); ok && !o.IsField() {
+								return true
+							}
+						}
+					}
+					return false
+				}
+				clearsID := func(v int) bool {
+					for _, w := range Writes(lg.Node(v), false) {
+						if l.IsField(w.LHS, idF) && w.RHS != nil {
+							if cl, ok := ast.Unparen(w.RHS).(*ast.CompositeLit); ok && len(cl.Elts) == 0 {
+								return true
+							}
+						}
+					}
+					return false
+				}
+				through := func(pred func(int) bool) bool { return lg.allPathsPass(dup, pred) }
+				c.Check(through(setsErr), "acceptRequest:duplicate-is-refused", l, lg.Node(dup), "the already-in-use branch always sets an error wrapping ErrInvalidRequest before the closure returns (otherwise the duplicate is dispatched and never answered)")
+				c.Check(through(clearsID), "acceptRequest:duplicate-loses-its-id", l, lg.Node(dup), "the already-in-use branch clears req.ID before the closure returns (otherwise the refusal is sent under, and retires, the original request's id)")
+				// no insertion on that branch
+				seen, _ := lg.reach([]int{dup}, nil, nil)
+				seen[dup] = true
+				ins := false
+				for _, w := range Writes(l.Body, false) {
+					if mi, _, ok := indexOf(w.LHS); ok && l.IsField(mi, byID) && seen[lg.VertexOf(w.Stmt)] {
+						ins = true
+					}
+				}
+				c.Check(!ins, "acceptRequest:duplicate-does-not-overwrite", l, lg.Node(dup), "no incomingByID store is reachable from the already-in-use branch")
+			}
+		}
+		c.Pin("already-in-use tests in acceptRequest", m, 1)
 	})
 
 	c.Rule("R-C02-4", "every reject path carries the standard JSON-RPC code: not-handled → -32601 (errors.Is), undecodable params → -32602, structurally invalid → -32600", func() {
